@@ -75,8 +75,12 @@ fn run_real<H: Header>(slice: &[u8], hsz: usize) -> Out {
             let hdr_eq = slice.len() >= hsz && hb == &slice[..hsz];
             let p = s.payload();
             let payload_len = p.len();
-            let payload_eq = hsz + payload_len <= slice.len() && p == &slice[hsz..hsz + payload_len] && p.as_ptr() as usize == slice.as_ptr() as usize + hsz;
-            Out::Ok { same_addr, hdr_eq, payload_eq, payload_len, sov: core::mem::size_of_val(s) }
+            // (the reported payload may be absurdly large: never touch it unless
+            // it lies inside the slice)
+            let inside = hsz.checked_add(payload_len).map_or(false, |e| e <= slice.len());
+            let payload_eq = inside && p == &slice[hsz..hsz + payload_len] && p.as_ptr() as usize == slice.as_ptr() as usize + hsz;
+            let sov = if inside { core::mem::size_of_val(s) } else { usize::MAX };
+            Out::Ok { same_addr, hdr_eq, payload_eq, payload_len, sov }
         }
     }
 }
